@@ -63,6 +63,10 @@ def models():
     M.append(NModel("lin_forward", ("p", "y"),
                     ("p = b*p[+1] + k*(y - 1) + 0.2 + ep", "y = 1 + rho*(y[-1] - 1) + ey"),
                     dict(b=0.9, k=0.25, rho=0.8), dict(p=2.0, y=1.0), ("ep", "ey"), linear=True))
+    # lead 2 and a non-zero steady state: the first-order terminal condition covers two columns and has a constant part
+    M.append(NModel("lin_lead2", ("q", "s"),
+                    ("q = 0.25*q[+2] + 0.25*q[-1] + 0.5*s + 0.3 + eq", "s = 0.5*s[-2] + 0.25*s[-1] + 0.1 + es"),
+                    dict(), dict(q=1.0, s=0.4), ("eq", "es"), linear=True))
     M.append(NModel("lin_backward", ("y", "z"),
                     ("y = a*y[-1] + b*y[-2] + ey", "z = c*z[-1] + d*y + ez"),
                     dict(a=0.5, b=0.2, c=0.3, d=0.4), dict(y=0.0, z=0.0), ("ey", "ez"), linear=True, backward=True))
@@ -418,7 +422,7 @@ def main(run):
                               "(get_init_guess, update, eval_func, _create_update_map)", "stacked_time._equators.Equator / equators.plain.PlainEquator", "fords.terminators.Terminator.{__init__,"
                               "terminate_simulation}", "period_by_period.simulators.{create_frames,simulate_frame}", "frames.{split_into_frames,prune_frame_data,write_frame_data_to_main_dataslate}",
                               "reached through Simultaneous.simulate(method='stacked_time'|'period_by_period')"]
-    run.bounds["structures"] = ("stacked-time simulation plans: <=2 anticipated or start-dated unanticipated targets/instruments per model; models: rbc (log-variables, real exponents, leads), nl_backward (rational nonlinearity), lin_forward, lin_backward; span 3 periods (thorough: also 4); unanticipated shocks in "
+    run.bounds["structures"] = ("stacked-time simulation plans: <=2 anticipated or start-dated unanticipated targets/instruments per model; models: rbc (log-variables, real exponents, leads), nl_backward (rational nonlinearity), lin_forward, lin_lead2 (lead 2, constants), lin_backward; span 3 periods (thorough: also 4); unanticipated shocks in "
                                 "period 0 (and a later period: two chained frames), anticipated shocks in one or two periods; terminal in {first_order, data}; methods stacked_time and "
                                 "period_by_period (backward-looking models)")
     run.bounds["values"] = "every initial condition, shock, anticipated twin and parameter a real symbol (log-variables positive); (iii): inputs in the unit box, parameters concrete, tolerance 1e-8"
